@@ -12,6 +12,7 @@
 From Coq Require Import ZArith List Bool.
 From FT Require Import Model.LabelUtils Model.Relabel Proofs.LabelUtilsProofs Proofs.RelabelProofs.
 From FT Require Gen.Relabel_gen Proofs.RelabelTie.
+From FT Require Proofs.ImportTie.
 Import ListNotations.
 Open Scope Z_scope.
 
@@ -89,6 +90,11 @@ Theorem C13_relabel_is_generated : forall rows old g,
   (fst (relabel_segmentation rows old), map (fun n => (n + offset rows)%Z) g).
 Proof. exact FT.Proofs.RelabelTie.gen_relabel_segmentation_eq. Qed.
 
+(* ---- the import pipeline of the model is, for all arguments, the code translated on every run from the current _tracks_builder.py, csv/_import.py, geff/_import.py and _validation.py (Gen/ImportPipeline_gen.v; translator harness/translate_import.py, fail closed; combinators Model/PyRt6.v; pandas dtype inference, geff's id validators and file reading stay oracle inputs).  The statements are those of the cited theorems of Proofs/ImportTie.v: whole CSV build = import_csv, whole GEFF build = import_geff, handle_segmentation = the model's ---- *)
+Theorem C13_handle_segmentation_is_generated : ltac:(let t := type of @FT.Proofs.ImportTie.gen_handle_segmentation_eq in exact t).
+Proof. exact @FT.Proofs.ImportTie.gen_handle_segmentation_eq. Qed.
+
+
 Example C13_permuted_chain :
   let rows := [R 2 0 1; R 3 0 2; R 1 0 3; R 5 1 1; R 4 1 2; R 6 1 8] in
   let old := [[1;2;3;0;9;1]; [1;1;2;9;0;2]] in
@@ -145,3 +151,4 @@ Print Assumptions C13_graph_shift.
 Print Assumptions C13_shortcut_sound.
 Print Assumptions C13_handle_segmentation.
 Print Assumptions C13_relabel_is_generated.
+Print Assumptions C13_handle_segmentation_is_generated.
